@@ -78,7 +78,12 @@ def leaves(tokens, out, alt=False):
         if "raw" in t and ty in ("text", "codespan", "inline_html", "block_code", "block_html"):
             out.append((ty, t["raw"]))
         if ty == "image" and not alt:
-            continue        # in HTML the alt text goes through striptags into an attribute: covered by C02, not an in-order text leaf
+            # in HTML the description goes through striptags into the alt attribute (escaping: C02); its text and code leaves still have to
+            # arrive there, in order, as words (tags — also those of inline HTML leaves — are what striptags removes)
+            sub = []
+            leaves(t.get("children") or [], sub, True)
+            out += [("altwords", raw) for ty2, raw in sub if ty2 in ("text", "codespan")]
+            continue
         if "children" in t:
             leaves(t["children"], out, alt)
 
@@ -139,7 +144,9 @@ def oracle(ctx, docs):
             leaves(toks, lv)
             pieces = []
             for ty, raw in lv:
-                if ty == "block_html":
+                if ty == "altwords":
+                    pieces += WORD.findall(raw)
+                elif ty == "block_html":
                     pieces.append(escape(raw.strip()) if esc else raw)
                 elif ty == "inline_html":
                     pieces.append(escape(raw) if esc else raw)
@@ -241,6 +248,7 @@ def run(ctx):
     ctx.broken += common.proof_stage(ctx, THEOREMS)
     replay_known(ctx)
     docs = [gen.md_any(ctx.rng, 8) if ctx.rng.random() < 0.8 else focused(ctx.rng) for _ in range(1800 if ctx.quick() else 30000)]
+    docs += [gen.bracket_soup(ctx.rng) for _ in range(1500 if ctx.quick() else 25000)]
     sweep = gen.slot_sweep()
     ctx.rng.shuffle(sweep)
     docs = EDGE_DOCS * 3 + docs + sweep[: (900 if ctx.quick() else len(sweep))]
